@@ -165,12 +165,21 @@ pub fn invalid_forms(name: &str) -> Vec<Opt> {
             f("supports(struct_struct_named)"),
             f("supports(enum_enum_unit)"),
             f("supports(\"any\")"),
+            f("supports(any, bogus)"),
+            f("supports(struct_any, enum_any, bogus)"),
+            f("supports(any, named)"),
         ],
         "v_supports" => vec![
             o("supports", "supports(bogus)", false, false),
             o("supports", "supports(struct_named)", false, false),
             o("supports", "supports", false, false),
             o("supports", "supports(unit = 1)", false, false),
+            // an ill-formed word is ill-formed wherever it stands in the list, also behind `any`
+            o("supports", "supports(any, bogus)", false, false),
+            o("supports", "supports(bogus, any)", false, false),
+            o("supports", "supports(named, enum_named, unit)", false, false),
+            o("supports", "supports(any, unit = 1)", false, false),
+            o("supports", "supports(any, a::b)", false, false),
         ],
         _ => vec![],
     }
